@@ -9,7 +9,10 @@ Union/Intersect/Sub/Xor is executed by the harness (go/cmd/c05), which appends t
                 at every point of every open unit cell, and nothing is inside outside the square);
   general area  polygons in general position (generator rejects the rest): `EO.validatePoints` on 120 sample points
                 per call that keep a margin of 1/64 from every edge of A, B and R — SAMPLING with a Lean oracle;
-  corpus        corpus/C05/*.ops (fixed enumerated degenerate inputs and boundary cases), both modes.
+  corpus        corpus/C05/*.ops (fixed enumerated degenerate inputs and boundary cases), both modes;
+                corpus/C05/degenerate.known.ops are the KNOWN FINDINGS on degenerate lattice inputs (panics, wrong
+                regions): each must be matched by an entry of known_findings.json (KNOWN-FINDING, exit 0), every other
+                rejected call is a VIOLATION.  A random degenerate-lattice stream is run as an observation only.
 
 Anything but `valid <judgements>` (invalid <witness>, operands-modified, empty-mismatch, panic, crash) is a violation.
 """
@@ -19,8 +22,8 @@ from concurrent.futures import ThreadPoolExecutor
 
 DRIVER = "drv_c05"
 N_CALLS = {
-    "lattice": {"quick": 60000, "thorough": 2400000},
-    "general": {"quick": 6000, "thorough": 160000},
+    "lattice": {"quick": 60000, "thorough": 3000000},
+    "general": {"quick": 6000, "thorough": 300000},
 }
 
 
@@ -45,38 +48,54 @@ def _operands_nonempty(line):
         return False
 
 
-def _account(ctx, area, tag, triples, counters):
-    reported = 0
+def _summarise(area, tag, triples):
+    """Runs inside the worker: reduce one stream to counters, keeping only what the report needs."""
+    S = {"area": area, "tag": tag, "evals": 0, "programs": 0, "judgements": 0, "empty_results": 0, "kinds": {},
+         "tags": {}, "distinct": set(), "samples": [], "bad": [], "bad_count": 0, "malformed": None}
     for k, (line, out, verdict) in enumerate(triples):
-        ctx.evals += 1
+        S["evals"] += 1
         w = line.split(" ", 3)
         kind = "%s:%s:%s" % (area, w[0], w[1] if len(w) > 1 else "?")
-        ctx.kinds[kind] = ctx.kinds.get(kind, 0) + 1
+        S["kinds"][kind] = S["kinds"].get(kind, 0) + 1
         if out == "skipped-after-crash":
             continue
-        good = verdict is not None and verdict.startswith("valid ")
-        if good:
+        if verdict is not None and verdict.startswith("valid "):
             j = int(verdict.split()[1])
-            counters["programs"] += 1
-            counters["judgements"] += j
-            counters["judgements_" + area] = counters.get("judgements_" + area, 0) + j
+            S["programs"] += 1
+            S["judgements"] += j
             if out == "R 0":
-                counters["empty_results"] += 1
+                S["empty_results"] += 1
             if j > 0 and _operands_nonempty(line):
-                ctx.distinct.add(hashlib.md5((area + "|" + line).encode()).digest()[:8])
+                S["distinct"].add(int.from_bytes(hashlib.md5((area + "|" + line).encode()).digest()[:8], "big"))
             t = "result-contours=%s" % (out.split()[1] if out.startswith("R ") and len(out.split()) > 1 else "?")
-            ctx.tags[t] = ctx.tags.get(t, 0) + 1
-            if len(ctx.samples) < 4 or (len(ctx.samples) < 12 and k % 1499 == 7):
-                ctx.samples.append({"area": area, "call": line[:400], "result": out[:300], "oracle": verdict})
+            S["tags"][t] = S["tags"].get(t, 0) + 1
+            if len(S["samples"]) < 2 and k % 1499 == 7:
+                S["samples"].append({"area": area, "call": line[:400], "result": out[:300], "oracle": verdict})
             continue
         if verdict == "bad-op" and out == "bad-op":
-            ctx.violations.append({"kind": "harness", "concrete": False,
-                                   "what": "malformed operation line in %s/%s: %s" % (area, tag, line[:120])})
+            S["malformed"] = line[:120]
             continue
-        if reported >= 2 or counters["reported"] >= 4:
+        S["bad_count"] += 1
+        if len(S["bad"]) < (50 if area == "degenerate" else 2):
+            S["bad"].append((line, out, verdict))
+    return S
+
+
+def _report(ctx, S, counters):
+    area, tag = S["area"], S["tag"]
+    if S["malformed"]:
+        ctx.violations.append({"kind": "harness", "concrete": False,
+                               "what": "malformed operation line in %s/%s: %s" % (area, tag, S["malformed"])})
+    counters["suppressed"] += S["bad_count"] - len(S["bad"])
+    for line, out, verdict in S["bad"]:
+        known = ctx._known_match(area, line, [line])
+        if known:
+            ctx.known_hits.append(known)
+            counters["known"] = counters.get("known", 0) + 1
+            continue
+        if counters["reported"] >= 4:
             counters["suppressed"] += 1
             continue
-        reported += 1
         counters["reported"] += 1
         rep = {"property": "C05", "kind": "translation-validation", "area": area, "stream": tag, "driver": DRIVER,
                "harness": "harness", "ops": [line], "impl_outputs": [out], "model_outputs": [verdict],
@@ -128,49 +147,76 @@ def run(ctx):
     if ctx.replay:
         return _replay(ctx)
 
-    shards = {"lattice": 8, "general": 16} if ctx.tier == "quick" else {"lattice": 16, "general": 32}
+    shards = {"lattice": 8, "general": 16} if ctx.tier == "quick" else {"lattice": 32, "general": 96}
     jobs = []
-    for area in ("lattice", "general"):
+    for area in ("lattice", "general", "degenerate"):
         c = ctx.corpus(area)
-        if c:
-            jobs.append((area, "corpus", c))
-    gens = []
-    for area in ("lattice", "general"):
+        for k in range(0, len(c), 100):  # chunks: the degenerate corpus lines carry many sample points
+            jobs.append((area, "corpus%d" % (k // 100), c[k:k + 100], None, 0))
+    for area in ("general", "lattice"):  # general shards are the long ones: start them first
         per = max(1, N_CALLS[area][ctx.tier] // shards[area])
         for i in range(shards[area]):
-            gens.append((area, ctx.seed * 1000003 + i, per))
+            jobs.append((area, "seed%d" % (ctx.seed * 1000003 + i), None, ctx.seed * 1000003 + i, per))
 
-    def gen(g):
-        area, seed, per = g
-        return (area, "seed%d" % seed, ctx.gen(area, seed, per))
+    # observation only (OUTSIDE the judged domain and outside every count): random degenerate lattice inputs
+    n_obs = 1200 if ctx.tier == "quick" else 12000
+    obs_jobs = [("degenerate", "observe%d" % i, None, ctx.seed * 1000003 + 500 + i, n_obs // 6) for i in range(6)]
+
+    def observe(job):
+        area, tag, _, seed, per = job
+        lines = ctx.gen(area, seed, per)
+        triples = _validate(ctx, area, lines) or []
+        rej = [(l, o, v) for l, o, v in triples if not (v or "").startswith("valid ")]
+        return (len(triples), len(rej), sum(1 for _, o, _ in rej if o == "panic"))
 
     def work(job):
-        area, tag, lines = job
-        return (area, tag, lines, _validate(ctx, area, lines))
+        area, tag, lines, seed, per = job
+        if lines is None:
+            lines = ctx.gen(area, seed, per)
+        triples = _validate(ctx, area, lines)
+        if triples is None:
+            return {"area": area, "tag": tag, "failed": "harness could not run the stream"}
+        if any(v is None for _, _, v in triples):
+            return {"area": area, "tag": tag, "failed": "oracle driver %s failed on the stream" % DRIVER}
+        return _summarise(area, tag, triples)
 
     with ThreadPoolExecutor(max_workers=16) as ex:
-        jobs += list(ex.map(gen, gens))
-        # longest first: general shards dominate
-        jobs.sort(key=lambda j: (j[1] != "corpus", j[0] != "general"))
+        obs_f = [ex.submit(observe, j) for j in obs_jobs]
         results = list(ex.map(work, jobs))
+        obs = [f.result() for f in obs_f]
+    ctx.extra["observation_random_degenerate_lattice"] = {
+        "calls": sum(o[0] for o in obs), "rejected_by_oracle": sum(o[1] for o in obs),
+        "of_which_panics": sum(o[2] for o in obs),
+        "note": "random NON-rectilinear polygons with vertices on a small integer lattice (shared vertices, vertices on "
+                "edges, coincident slanted edges); outside the property's quantifier, not part of programs / "
+                "evaluations / violations; see the known findings of corpus/C05/degenerate.known.ops"}
 
     counters = {"programs": 0, "judgements": 0, "empty_results": 0, "reported": 0, "suppressed": 0}
-    for area, tag, lines, triples in results:
-        if triples is None:
-            ctx.violations.append({"kind": "harness", "concrete": False,
-                                   "what": "harness could not run stream %s/%s" % (area, tag)})
-            continue
-        if any(v is None for _, _, v in triples):
+    for S in results:
+        if "failed" in S:
             ctx.violations.append({"kind": "correspondence", "concrete": False,
-                                   "what": "oracle driver %s failed on stream %s/%s" % (DRIVER, area, tag)})
+                                   "what": "%s (%s/%s)" % (S["failed"], S["area"], S["tag"])})
             continue
-        _account(ctx, area, tag, triples, counters)
+        ctx.evals += S["evals"]
+        ctx.distinct |= S["distinct"]
+        for k, v in S["kinds"].items():
+            ctx.kinds[k] = ctx.kinds.get(k, 0) + v
+        for k, v in S["tags"].items():
+            ctx.tags[k] = ctx.tags.get(k, 0) + v
+        if len(ctx.samples) < 12:
+            ctx.samples += S["samples"][:1] if len(ctx.samples) >= 4 else S["samples"]
+        counters["programs"] += S["programs"]
+        counters["judgements"] += S["judgements"]
+        counters["judgements_" + S["area"]] = counters.get("judgements_" + S["area"], 0) + S["judgements"]
+        counters["empty_results"] += S["empty_results"]
+        _report(ctx, S, counters)
     ctx.extra["programs"] = counters["programs"]
     ctx.extra["disagreements_checked"] = counters["judgements"]
     ctx.extra["judgements_lattice_cells_exhaustive"] = counters.get("judgements_lattice", 0)
     ctx.extra["judgements_general_sample_points"] = counters.get("judgements_general", 0)
     ctx.extra["empty_results"] = counters["empty_results"]
     ctx.extra["violations_not_listed"] = counters["suppressed"]
+    ctx.extra["known_finding_inputs_hit"] = counters.get("known", 0)
     ctx.extra["exhaustive"] = False
     ctx.rules.append(
         "programs = clipper calls (one per op line: op, float type, A, B) executed by the real code and accepted by the "
